@@ -62,6 +62,10 @@ def gen_forcing(r, Ls, n):
             k = [G.gen_value(r, "rate") for _ in range(ncell * len(rx))]
             y = [G.gen_value(r, "conc") for _ in range(ncell * ns)]
             f0 = [G.gen_value(r, "any") if r.chance(0.5) else 0.0 for _ in range(ncell * ns)]
+        if rx and r.chance(0.25):
+            q = r.below(len(rx)); every = r.chance(0.6)
+            for c in range(ncell):
+                if every or r.chance(0.5): k[c * len(rx) + q] = 0.0
         line = " ".join(["forcing", str(L), str(ncell), str(ns)] + [str(x) for x in perm] + G.mech_tokens(rx) + [hexd(v) for v in k + y + f0])
         meta = dict(L=L, ns=ns, ncell=ncell, perm=perm, rx=rx, k=[F(v) for v in k], y=[F(v) for v in y], f0=[F(v) for v in f0])
         tags = ["L=%d" % L]
@@ -84,6 +88,11 @@ def gen_jacobian(r, Ls, n):
         else:
             k = [G.gen_value(r, "rate") for _ in range(ncell * len(rx))]
             y = [G.gen_value(r, "conc") for _ in range(ncell * ns)]
+        if rx and r.chance(0.3):
+            # a reaction switched off (rate constant exactly 0, e.g. photolysis at night) in every cell or in some cells
+            q = r.below(len(rx)); every = r.chance(0.6)
+            for c in range(ncell):
+                if every or r.chance(0.5): k[c * len(rx) + q] = 0.0
         line = " ".join(["jacobian", str(ncell), str(ns), str(csc), str(L)] + [str(x) for x in perm] + G.mech_tokens(rx) + [hexd(v) for v in k + y])
         meta = dict(L=L, csc=csc, ns=ns, ncell=ncell, perm=perm, rx=rx, k=[F(v) for v in k], y=[F(v) for v in y])
         tags = ["L=%d" % L, "csc" if csc else "csr"]
@@ -144,6 +153,9 @@ def gen_solve_problem(r, env, Ls, integ=None, stiff=False, big_hstart=False, con
         k = [r.logu(1e-3, 1e7) for _ in range(ncell * nrx)]
     else:
         k = [G.gen_value(r, "rate") for _ in range(ncell * nrx)]
+    if nrx and r.chance(0.2):
+        q = r.below(nrx)
+        for c in range(ncell): k[c * nrx + q] = 0.0
     y = [G.gen_value(r, "conc") for _ in range(ncell * ns)]
     atol = [r.pick([1e-3, 1e-6, 1e-12]) for _ in range(ns)]
     rtol = r.pick([1e-3, 1e-6, 1e-8])
@@ -238,7 +250,12 @@ def conserving_mech(r, ns):
         parts = [F(r.rng(1, 8)) for _ in prods]
         ssum = sum(parts)
         yl = [float(F(total) * parts[q] / ssum / w[prods[q]]) for q in range(np_)]
-        rx.append((reactants, list(zip(prods, yl))))
+        plist = list(zip(prods, yl))
+        if r.chance(0.3):
+            # a third body returned unchanged (parameterized species on both sides): not part of the balance
+            reactants = reactants + [PARAM0]
+            plist.insert(r.below(len(plist) + 1), (PARAM0, 1.0))
+        rx.append((reactants, plist))
     return rx, w
 
 def oracle_c09(c, out):
@@ -1178,6 +1195,14 @@ def gen_sparse_case(r, Ls, n=None, es=None):
     line = " ".join(["sparse", str(n), str(csc), str(L), str(blocks)] + G.pairs_tokens(es))
     return line, dict(n=n, L=L, csc=csc, blocks=blocks, es=es)
 
+def gen_sparse_reassign_case(r, Ls):
+    """a live matrix holding pattern A is assigned from a builder with pattern B: every probe must see B only"""
+    n0 = r.rng(1, 5); n = r.rng(1, 5)
+    L = r.pick(Ls); csc = r.below(2); blocks = r.rng(1, 2 * max(L, 1) + 1); blocks0 = r.rng(1, 2 * max(L, 1) + 1)
+    es0 = G.gen_pattern(r, n0, full_diag=r.chance(0.7)); es = G.gen_pattern(r, n, full_diag=r.chance(0.7))
+    line = " ".join(["sparse", str(n), str(csc), str(L), str(blocks)] + G.pairs_tokens(es) + ["prev", str(n0), str(blocks0)] + G.pairs_tokens(es0))
+    return line, dict(n=n, L=L, csc=csc, blocks=blocks, es=es)
+
 def oracle_sparse(c, out):
     cmd, d = parse_kv(out or "")
     if cmd != "sparse":
@@ -1262,6 +1287,9 @@ def g_c19(r, tier, env, Ls):
     for _ in range(200 if tier == "quick" else 3000):
         line, meta = gen_sparse_case(r, Ls, n=r.rng(4, 8))
         cs.append(Case(line, meta, "sparse", oracle=oracle_sparse, tags=["random", "L=%d" % meta["L"]]))
+    for _ in range(200 if tier == "quick" else 3000):
+        line, meta = gen_sparse_reassign_case(r, Ls)
+        cs.append(Case(line, meta, "sparse-reassigned", oracle=oracle_sparse, tags=["reassigned_from_builder", "L=%d" % meta["L"]]))
     for L in Ls:
         for rows in range(0, 3 * max(L, 1) + 2):
             for cols in range(0, 7):
@@ -1511,6 +1539,16 @@ def special_c18(tier, seed):
     dist = {}
     nontriv = 0
     for l in lines:
+        if l.startswith("jitfn "):
+            kv = dict(t.split("=", 1) for t in l.split()[1:] if "=" in t)
+            dist["fn L=" + kv.get("L", "?")] = dist.get("fn L=" + kv.get("L", "?"), 0) + 1
+            nontriv += 1
+            if kv.get("forcing_equal") != "1":
+                fails.append((f"JIT-generated forcing function differs from the vectorised CPU kernel: {l[:160]}", {"cmd": f"{exe} {seed} {n}", "line": l}, True))
+            if kv.get("jacobian_equal") != "1":
+                fails.append((f"JIT-generated Jacobian function differs from the vectorised CPU kernel (flat ids set on the declared pattern, then on the fill-closed one): {l[:160]}",
+                              {"cmd": f"{exe} {seed} {n}", "line": l}, True))
+            continue
         if not l.startswith("jit "):
             fails.append((f"JIT driver case failed: {l[:120]}", {"cmd": f"{exe} {seed} {n}", "line": l}, True)); continue
         kv = dict(t.split("=", 1) for t in l.split()[1:] if "=" in t)
@@ -1522,7 +1560,7 @@ def special_c18(tier, seed):
             fails.append((f"a JIT solver for a cell count different from L was not rejected with the JIT error: {l[-60:]}", {"cmd": f"{exe} {seed} {n}", "line": l}, True))
     if r.returncode != 0:
         fails.append((f"JIT driver exited with {r.returncode}", {"stderr": r.stderr[-1500:]}, True))
-    if len(lines) < 4 * n and r.returncode == 0:
+    if len(lines) < 8 * n and r.returncode == 0:
         fails.append(("JIT driver produced fewer cases than requested", {"stdout": r.stdout[-500:]}, False))
     return dict(evaluations=len(lines), fails=fails, samples=lines[:3], dist=dist, nontrivial=nontriv)
 
